@@ -225,6 +225,12 @@ def run_c01(o, tier, rng, prep):
     for fen, chain in cc:
         if fen in cc_legal:
             chain_cases.append("gen\tA\t%s\t%s" % (fen, " ".join(chain)))
+    # a promotion answered by castling: the castling successor must not inherit the promotion piece
+    pc_ = gens.promotion_then_castle()
+    pc_legal = set(f for f, _, _ in gens.filter_legal(sorted(set(f for f, _ in pc_))))
+    for fen, chain in pc_:
+        if fen in pc_legal:
+            chain_cases.append("gen\tA\t%s\t%s" % (fen, " ".join(chain)))
     # after the capture, every reply of the other side and then the position after it
     follow = []
     pre = V.run_sharded([V.DRIVER, V.ZDUMP], [c for c in chain_cases if c.split("\t")[2] in cc_legal])
@@ -637,10 +643,20 @@ def mate_score_const():
     return int(re.search(r"Definition MATE_SCORE : Z := (\d+)", txt).group(1))
 
 
+FORCED_MOVE_FENS = [
+    "7k/8/8/8/8/8/6q1/K7 w - - 0 1",
+    "k7/6Q1/8/8/8/8/8/7K b - - 0 1",
+    "6rk/7p/8/8/8/7n/5P1P/5RK1 w - - 0 1",
+    "k7/2K5/8/8/8/8/8/1R6 b - - 0 1",
+]
+
+
 def sweep_expiry(o, tier, rng, want_c18=False, hunt=False):
     """C07/C18: for small searches enumerate every expiry index k from 0 up to the end of a reference run"""
-    pos = small_positions(rng, 30 if tier == "quick" else 400, max_pieces=7)
-    npos = 10 if tier == "quick" else 120
+    # roots with exactly one legal move come first: there the root loop meets the clock at other places
+    # (an expiry inside the only move's subtree is noticed one iteration later)
+    pos = [(f, [], f) for f in FORCED_MOVE_FENS] + small_positions(rng, 30 if tier == "quick" else 400, max_pieces=7)
+    npos = 10 + len(FORCED_MOVE_FENS) if tier == "quick" else 120
     kmax = 100 if tier == "quick" else 260
     if hunt:
         # the correspondence broke: search harder for a concrete failing expiry point, on the implementation alone
@@ -1297,6 +1313,34 @@ TERMINAL_SESSIONS = [
 ]
 
 
+def forced_root_sweep(o, kmax=40):
+    """in-process searches (virtual clock, expiry index 0..kmax) on roots with exactly one legal move and a few
+    ordinary ones: whatever the expiry point, exactly the moves of the root may be handed back and at least one is"""
+    fens = FORCED_MOVE_FENS + ["8/8/4k3/8/8/3PK3/8/8 w - - 0 1", "5rk1/5ppp/8/8/8/8/r7/K6R w - - 0 1"]
+    legal = root_legal_moves(fens)
+    cases, index = [], []
+    for fi, f in enumerate(fens):
+        for k in range(kmax + 1):
+            cases.append("search\tposition fen %s\t%d" % (f, k))
+            index.append(fi)
+    res = impl_only(cases)
+    ok = True
+    for fi, r in zip(index, res):
+        d = parse_search(r.get("I"))
+        o.evaluations += 1
+        if d.get("bad") or d.get("panic"):
+            ok = False
+            o.violation("input", "search did not complete normally: %s -> %s" % (r["case"], (r.get("I") or "")[:160]), {"case": r["case"], "impl": r.get("I")})
+            continue
+        sends = [x.split("#")[0] for x in d["sends"]]
+        if not sends or any(x not in legal[fi] for x in sends):
+            ok = False
+            o.violation("input", "search hands back %s, legal root moves are %s: %s" % (sends or "nothing", sorted(legal[fi]), r["case"]),
+                        {"case": r["case"], "sends": sends, "legal": sorted(legal[fi])})
+    hist_add(o, "in-process searches on forced-move roots x expiry index", len(res))
+    return ok
+
+
 @prop("C03", "C03.v", THEOREMS["C03"], binary=True)
 def run_c03(o, tier, rng, prep):
     import blackbox
@@ -1357,6 +1401,8 @@ def run_c03(o, tier, rng, prep):
     o.oblige("exactly one legal, well-formed bestmove per go, along go chains, on the real binary (%d go commands)" % o.evaluations, ok)
     ok3 = corner_capture_sessions(o, tier, rng)
     o.oblige("go after a move list that captures an unmoved rook on its corner (castling rights of the text applier)", ok3)
+    okf = forced_root_sweep(o)
+    o.oblige("a move of the root is handed back for every expiry index, also when the root has exactly one legal move", okf)
     ok2 = go_chain_corpus(o, tier, rng)
     o.oblige("go chains through promotion, castling and en passant (fields inherited from the previous answer)", ok2)
     session_model_corr(o, tier, rng)
@@ -1542,6 +1588,8 @@ def run_c08(o, tier, rng, prep):
             o.violation("input", "engine no longer serves go after the session", {"lines": lines[-5:]})
     finally:
         eng.close()
+    okf = forced_root_sweep(o)
+    o.oblige("the search hands a move back for every expiry index, also when the root has exactly one legal move (so the go is answered)", okf)
     session_model_corr(o, tier, rng)
     # tiny slices on positions whose first root move opens a long quiescence tree
     eng = blackbox.Engine(V.BINARY)
